@@ -15,7 +15,7 @@ from harness.models import jsonmodel2
 INTS = [0, -1, 1, 2 ** 31, -(2 ** 63), 2 ** 63, 2 ** 100, 10 ** 30]
 FLOATS = [0.0, -0.0, 1e308, -1e308, 5e-324, 2.0 ** -1074, 0.1, 1.0, float("inf"), float("-inf"), 3.141592653589793, 1e-7, 123456789.123456789]
 STRS = ["NaN", "Infinity", "-Infinity", "nan", "null", "true", "None", "", "a", "é", "\u0000", "\U0001F600", "日本語", "__json_type__", "json.dumps", "a.b", "{\"x\": 1}", "\\", "\"", "\n\t", " ", "퟿", " "]
-CLS = {"A": A, "B": B, "C": C, "A2": jsonmodel2.A, "It": jsonmodel.It}
+CLS = {"A": A, "B": B, "C": C, "A2": jsonmodel2.A, "It": jsonmodel.It, "D1": jsonmodel.D1, "MD": jsonmodel.MD}
 
 
 def concretise(shape, rnd):
@@ -116,6 +116,40 @@ def _scope():
     yield
 
 
+ENGINE = []
+
+
+def _mutate(x):
+    """An in-memory change of a loaded value that is never written back."""
+    if isinstance(x, list):
+        x.append("changed in memory")
+    elif isinstance(x, dict):
+        x["changed in memory"] = 1
+    elif hasattr(x, "__dict__") and x.__dict__:
+        k = next(iter(x.__dict__))
+        try:
+            setattr(x, k, "changed in memory")
+        except Exception:
+            pass
+
+
+def engine_round_trips(v):
+    """The same value through the (de)serialiser that krrood's create_engine installs for JSON columns: stored, loaded,
+    the loaded copy modified in memory, loaded again - every load yields the stored value."""
+    if not ENGINE:
+        from krrood.ormatic.utils import create_engine
+        ENGINE.append(create_engine("sqlite://"))
+    ser, de = ENGINE[0].dialect._json_serializer, ENGINE[0].dialect._json_deserializer
+    text = ser(v)
+    first = de(text)
+    d = same(v, first)
+    if d:
+        return "first load: " + str(d)
+    _mutate(first)
+    d = same(v, de(text))
+    return ("a load after a loaded copy was modified in memory: " + str(d)) if d else None
+
+
 def handle(case):
     if case["part"] == "value":
         rnd = random.Random(case["seed"])
@@ -129,6 +163,7 @@ def handle(case):
                 back = from_json(json.loads(text))
                 o["diff"] = same(v, back)
                 o["tag"] = tags_ok(v, json.loads(text))
+                o["diff"] = o["diff"] or engine_round_trips(v)
                 if o["diff"] or o["tag"]:
                     o["text"] = text[:400]
             except Exception as ex:
